@@ -374,6 +374,7 @@ def c14_rust(ctx):
     c14_tie_break(ctx, F)
     c14_lex_state_merge(ctx, F)
     c14_prefer(ctx, F)
+    c14_group_transitions(ctx, F)
     fn = find_fn(ctx, F, "build_tables::identify_keywords", "G3")
     if fn:
         empty = [pt for pt, c, d in calls_named(fn, "TokenSet::new")]
@@ -421,6 +422,32 @@ def c14_prefer(ctx, F):
             ("…at equal precedence not across a separator", [((".precedence == ",), False), ((".is_separator",), False)]),
             ("…and, if separators can follow, only while still inside the completed token", [((".precedence == ",), False), (("has_separator_transitions",), False), (("Iterator::any(",), True)]),
         ], accept_desc="preferring the transition")
+
+
+def c14_group_transitions(ctx, F):
+    """C14.N1: merging NFA transitions that overlap on some characters.  Whenever the incoming edge's
+    target state joins an existing transition's state list, the merged transition takes the *higher* of
+    the two precedences (and is a separator only if both were) — otherwise a longer token of equal or
+    higher precedence becomes unreachable behind a lower-precedence one that was defined earlier."""
+    fn = find_fn(ctx, F, "NfaCursor::group_transitions", "N1")
+    if not fn:
+        return
+    joins = [pt for pt, c, d in calls_named(fn, "binary_search") if len(c.get("a", [])) == 2 and deep_text(fn, c["a"][1], user=False).endswith("state")]
+    maxes = [pt for pt, c, d in calls_named(fn, "cmp::max") if ".precedence" in deep_text(fn, c["a"][0], user=False) + deep_text(fn, c["a"][1], user=False)]
+    from C15 import self_increments
+    steps = self_increments(fn)
+    ctx.floor("places where the incoming state joins an existing transition", len(joins), 1)
+    if not maxes:
+        ctx.bad("N1", "group_transitions:merged-precedence-is-max", "group_transitions no longer computes max(existing precedence, incoming precedence) for a merged transition")
+        return
+    ctx.after("N1", "group_transitions:merged-precedence-is-max", fn, joins, maxes,
+              "a transition that takes in the incoming state gets max(its precedence, the incoming precedence)", stop_pts=steps)
+    aggs = [x for pt, e in fn.points() for x in own_walk(e) if x.get("k") == "agg" and (x.get("adt") or "").endswith("NfaTransition")]
+    okp = any("cmp::max(" in deep_text(fn, f["e"], user=False) for x in aggs for f in x["fields"] if f.get("f") == "precedence")
+    if okp:
+        ctx.ok("N1", "group_transitions:intersection-built-with-max", "the intersection transition is constructed with precedence = max(..)")
+    else:
+        ctx.bad("N1", "group_transitions:intersection-built-with-max", "no NfaTransition in group_transitions is constructed with precedence = max(existing, incoming)")
 
 
 def c14_lex_state_merge(ctx, F):
